@@ -380,3 +380,13 @@ def check(ctx):
     F = ctx.F
     entries = [b for b in F.trait_impl('TryFrom') if '::expressions::' in b.path and 'Envelope' in (b.impl_trait_full or '')]
     panic.slice_check(ctx, 'C18.7', entries, 'expression-parse')
+
+
+_check_before_errflow = check
+
+
+def check(ctx):
+    _check_before_errflow(ctx)
+    # C18.8 error discipline: no error of a fallible call is turned into "absent / false / default" outside the reviewed table
+    from .. import errflow
+    errflow.check(ctx, 'C18.8', ['src/extension/expressions/request.rs', 'src/extension/expressions/response.rs', 'src/extension/expressions/event.rs', 'src/extension/expressions/expression.rs', 'src/extension/expressions/function.rs', 'src/extension/expressions/parameter.rs'], 'expression family')
